@@ -243,6 +243,27 @@ impl_into!(vec512_storage, [u32; 16], u32x16);
 impl_into!(vec512_storage, [u64; 8], u64x8);
 impl_into!(vec512_storage, [u128; 4], u128x4);
 
+/// Verification hook (only with `--cfg cryptocorrosion_verif`): lets a test harness make the
+/// run-time dispatchers behave as if the host only supported a lesser feature level.
+#[cfg(cryptocorrosion_verif)]
+pub mod verif {
+    use core::sync::atomic::{AtomicU8, Ordering};
+    pub const HOST: u8 = 0;
+    pub const SSE2: u8 = 1;
+    pub const SSSE3: u8 = 2;
+    pub const SSE41: u8 = 3;
+    pub const AVX: u8 = 4;
+    pub const AVX2: u8 = 5;
+    static LEVEL: AtomicU8 = AtomicU8::new(HOST);
+    pub fn set_level(level: u8) {
+        LEVEL.store(level, Ordering::SeqCst);
+    }
+    #[inline]
+    pub fn level() -> u8 {
+        LEVEL.load(Ordering::Relaxed)
+    }
+}
+
 /// Generate the full set of optimized implementations to take advantage of the most important
 /// hardware feature sets.
 ///
@@ -283,6 +304,15 @@ macro_rules! dispatch {
                 fn_impl($crate::x86_64::SSE2::instance(), $($arg),*)
             }
             unsafe {
+                #[cfg(cryptocorrosion_verif)]
+                match $crate::x86_64::verif::level() {
+                    $crate::x86_64::verif::AVX2 => return impl_avx2($($arg),*),
+                    $crate::x86_64::verif::AVX => return impl_avx($($arg),*),
+                    $crate::x86_64::verif::SSE41 => return impl_sse41($($arg),*),
+                    $crate::x86_64::verif::SSSE3 => return impl_ssse3($($arg),*),
+                    $crate::x86_64::verif::SSE2 => return impl_sse2($($arg),*),
+                    _ => {}
+                }
                 if is_x86_feature_detected!("avx2") {
                     impl_avx2($($arg),*)
                 } else if is_x86_feature_detected!("avx") {
@@ -347,6 +377,12 @@ macro_rules! dispatch_light128 {
                 fn_impl($crate::x86_64::SSE2::instance(), $($arg),*)
             }
             unsafe {
+                #[cfg(cryptocorrosion_verif)]
+                match $crate::x86_64::verif::level() {
+                    $crate::x86_64::verif::AVX2 | $crate::x86_64::verif::AVX => return impl_avx($($arg),*),
+                    $crate::x86_64::verif::SSE41 | $crate::x86_64::verif::SSSE3 | $crate::x86_64::verif::SSE2 => return impl_sse2($($arg),*),
+                    _ => {}
+                }
                 if is_x86_feature_detected!("avx") {
                     impl_avx($($arg),*)
                 } else if is_x86_feature_detected!("sse2") {
@@ -405,6 +441,12 @@ macro_rules! dispatch_light256 {
                 fn_impl($crate::x86_64::SSE2::instance(), $($arg),*)
             }
             unsafe {
+                #[cfg(cryptocorrosion_verif)]
+                match $crate::x86_64::verif::level() {
+                    $crate::x86_64::verif::AVX2 | $crate::x86_64::verif::AVX => return impl_avx($($arg),*),
+                    $crate::x86_64::verif::SSE41 | $crate::x86_64::verif::SSSE3 | $crate::x86_64::verif::SSE2 => return impl_sse2($($arg),*),
+                    _ => {}
+                }
                 if is_x86_feature_detected!("avx") {
                     impl_avx($($arg),*)
                 } else if is_x86_feature_detected!("sse2") {
